@@ -185,6 +185,53 @@ class Ix:
         return Pk(self.pkg)
 
 
+class Subs:
+    """Shadow of a stream object's ``_streams`` dict (phase sub-streams handed out by ``MultiStream.__getitem__``).
+    Each entry remembers whether it is attached and to which model stream's (indexer, thermal condition) it was
+    bound last; a proxy shares the dict object with its origin."""
+
+    def __init__(self):
+        self.d = {}          # phase -> [status 'ok' | 'stale', owner SM, package id of the sub-stream's _thermo]
+
+    def state(self, sm, p):
+        e = self.d.get(p)
+        if e is None:
+            return None
+        st, owner, pkg = e
+        if st != 'ok' or pkg != sm.ix.pkg:
+            return 'stale'
+        if owner is sm or (owner.ix is sm.ix and owner.tc is sm.tc):
+            return 'ok'
+        return 'stale'
+
+    def create(self, sm, p):
+        if p not in self.d:
+            self.d[p] = ['ok', sm, sm.ix.pkg]
+
+    def relink(self, sm):
+        for e in self.d.values():
+            e[0] = 'ok'; e[1] = sm
+
+    def relink_data(self, sm):
+        """_reset_thermo: entries get this stream's new flow data, their thermal condition is untouched"""
+        for e in self.d.values():
+            same_tc = e[1] is sm or e[1].tc is sm.tc
+            e[0] = 'ok' if same_tc else 'stale'
+            e[2] = sm.ix.pkg                 # _reset_thermo also sets the sub-stream's _thermo
+            if same_tc:
+                e[1] = sm
+
+    def detach_all(self):
+        for e in self.d.values():
+            e[0] = 'stale'
+
+    def clear(self):
+        self.d.clear()
+
+    def phases(self):
+        return list(self.d)
+
+
 class SM:
     """Model of one stream object."""
 
@@ -193,7 +240,7 @@ class SM:
         self.ix = ix
         self.tc = tc
         self.born = born        # 'S' or 'M': class whose constructor made the object
-        self.subs = {}          # phase -> 'ok' | 'stale' : sub-streams the real object holds in _streams
+        self.subs = Subs()      # shadow of the object's _streams dict (shared with proxies)
         self.last = 'new'       # last structural operation applied (for messages)
 
     # -- convenience -------------------------------------------------------
